@@ -12,11 +12,14 @@ RULE = ("S-syn listings with planted runs / repeated blocks (adjacent, separated
         "returned by all-matches mode must equal that scan element by element (hence pairwise disjoint, increasing, every "
         "element a match, nothing skipped in any gap or after the last); first-match mode must return exactly its first "
         "element; long listings (2 000-30 000 instructions) with a marker planted at known positions incl. the very end must be reported "
-        "exactly; asking the same matcher object a second time must give the same lists; addresses must increase numerically. Non-trivial = the scan yields >= 2 hits or there are overlapping "
+        "exactly; variable-length rules (times ranges, $not over a multi-instruction group) whose only occurrence straddles an index boundary "
+        "(powers of two, multiples of 1000, visited in turn) of a long listing must be reported whole; occurrences that straddle a non-instruction "
+        "line (`...` elision, label, blank, section header) and listings with many in-range direct branches under valid_addr_range must be "
+        "reported at their planted addresses in address-only and full-text mode; asking the same matcher object a second time must give the same lists; addresses must increase numerically. Non-trivial = the scan yields >= 2 hits or there are overlapping "
         "candidates (a position inside a reported hit also starts a match); distinct = (rule, listing).")
 FLOOR = {"quick": 150, "thorough": 2000}
 ANCHOR_HINTS = ["consumer", "matched_observers"]
-REQUIRED_EVENTS = ["scans_compared"]
+REQUIRED_EVENTS = ["scans_compared", "long_variable_length_cases", "gap_or_range_listings_scanned"]
 
 
 def feat(rng):
@@ -160,10 +163,164 @@ def long_listing_stratum(ctx, ws, n):
         ctx.sample("long-listing", {"instructions": size, "planted": planted, "reported": list(r[1])})
 
 
+def gap_and_range_stratum(ctx, ws, n):
+    """(a) occurrences of a two-instruction rule that straddle a line objdump prints between instructions (`\t...` elision of zero
+    bytes, a symbol label, a blank line, a section header): the stream is contiguous there, so the scan reports them;
+    (b) the same rule under a config with valid_addr_range on listings with many in-range direct branches in front of the
+    occurrences: address-only mode reports the start of every hit, one per full-text hit. Ground truth by construction."""
+    from jv import listing as L
+    rng = ctx.rng
+    for _ in range(n):
+        size = rng.choice([30, 60, 120, 300])
+        insts, addr, planted = [], rng.choice([0x401000, 0x1000, 0x7ff0]), []
+        with_range = rng.random() < 0.5
+        while len(insts) < size:
+            r = rng.random()
+            if r < 0.08:
+                planted.append(format(addr, "x"))
+                insts.append(L.SInst(addr, "hlt", [], None, None, 1))
+                insts.append(L.SInst(addr + 1, "cli", [], None, None, 1))
+                addr += 2
+            elif r < (0.45 if with_range else 0.15):
+                m = rng.choice(["call", "jmp", "call", "je", "jne"])
+                insts.append(L.SInst(addr, m, [format(rng.choice([0x401000, 0x401037, 0x1000, 0x40, 0x7ff8]), "x")], rng.choice([None, "<f+0x10>"]), None, 5))
+                addr += 5
+            else:
+                m, ops = L.rand_inst_body(rng, mnems=["mov", "add", "push", "pop", "lea", "cmp", "xor"])
+                if ops == ["@target"]:
+                    ops = ["%rax"]
+                nb = rng.randint(1, 7)
+                insts.append(L.SInst(addr, m, ops, None, None, nb))
+                addr += nb
+        if not planted:
+            continue
+        text = L.render(insts, rng, labels=False)
+        out, gaps = [], 0
+        for line in text.split("\n"):
+            if line.rstrip().endswith("\tcli") and rng.random() < 0.6:
+                out.append(rng.choice(["\t...", "\t...", "", "0000000000401000 <sym>:", "Disassembly of section .text2:", "\t...\n"]))
+                gaps += 1
+            out.append(line)
+        lp = ws.write("gap.s", "\n".join(out))
+        doc = {"config": {"mnemonics-full-match": True}, "pattern": ["hlt", "cli"]}
+        if with_range:
+            doc["config"]["valid_addr_range"] = {"min": "0", "max": "ffffffffffff"}
+        rp = ws.write("gap.yaml", real.dump_rule(doc))
+        ra = real.match(rp, lp, ret="list", search="all", only_addr=True)
+        rt = real.match(rp, lp, ret="list", search="all", only_addr=False)
+        rf = real.match(rp, lp, ret="list", search="first", only_addr=True)
+        ctx.ran(3)
+        ctx.event("gap_or_range_listings_scanned")
+        ctx.event("occurrences_straddling_a_non_instruction_line", gaps)
+        ctx.case(("gap", tuple(planted), gaps, with_range, size), True, stratum="gap lines" + (" + valid_addr_range" if with_range else ""))
+        case = {"gap_listing": True, "listing": "\n".join(out), "rule": real.dump_rule(doc), "planted": planted}
+        if ra[0] != "ok" or rt[0] != "ok" or rf[0] != "ok":
+            ctx.disagreement(case, f"a mode raised: {[r[:3] for r in (ra, rt, rf) if r[0] != 'ok'][:1]}")
+        elif list(ra[1]) != planted or [h.split("::")[0] for h in rt[1]] != planted or list(rf[1]) != planted[:1]:
+            ctx.disagreement(case, f"'hlt; cli' stands at {planted[:8]} ({gaps} occurrences have a non-instruction line between the two instructions, "
+                                   f"valid_addr_range={'on' if with_range else 'off'}): address-only all-matches {str(ra[1])[:120]}, full-text starts "
+                                   f"{[h.split('::')[0] for h in rt[1]][:8]}, first-match {rf[1]}")
+
+
+def replay_gap(ctx, case):
+    ws = real.Workspace()
+    lp, rp = ws.write("gap.s", case["listing"]), ws.write("gap.yaml", case["rule"])
+    ra = real.match(rp, lp, ret="list", search="all", only_addr=True)
+    rt = real.match(rp, lp, ret="list", search="all", only_addr=False)
+    rf = real.match(rp, lp, ret="list", search="first", only_addr=True)
+    ctx.ran(3)
+    planted = case["planted"]
+    if ra[0] != "ok" or rt[0] != "ok" or rf[0] != "ok" or list(ra[1]) != planted or [h.split("::")[0] for h in rt[1]] != planted or list(rf[1]) != planted[:1]:
+        ctx.disagreement(case, f"'hlt; cli' stands at {planted[:8]}: address-only {str(ra[1:2])[:120]}, full text starts {str(rt[1:2])[:120]}, first {rf[1:2]}")
+
+
+BOUNDS = [8192, 4096, 1024, 16384, 10000, 2048, 1000, 512, 5000, 32768, 8191, 4095, 20000, 12288, 24576]
+
+
+def long_variable_stratum(ctx, ws, n):
+    """Long listings x VARIABLE-length rules whose first occurrence straddles an index boundary that block-wise or incremental
+    processing would use (every power of two / multiple of 1000 in BOUNDS is visited in turn, independent of the seed):
+    `hlt, cli{1,40}` must report the whole run of cli (greedy), `hlt, $not[$and[cli, cli, sti]] ...` must see the instructions after
+    the boundary. Ground truth by construction; first-match must be the head of all-matches in text and address."""
+    from jv import listing as L
+    rng = ctx.rng
+    for i in range(n):
+        B = BOUNDS[(ctx.shard + i * ctx.nshards) % len(BOUNDS)]
+        size = B + rng.randint(50, 1500)
+        body = L.gen_listing(rng, 40, mnems=["mov", "add", "push", "pop", "lea", "cmp", "xor"], start=0x401000)
+        before, after = rng.randint(1, 6), rng.randint(1, 6)       # cli instructions before / after index B
+        start = B - before - 1                                      # index of the hlt
+        run = before + after
+        insts, addr, k = [], 0x401000, 0
+        while len(insts) < size:
+            if len(insts) == start:
+                hit_addr = format(addr, "x")
+                for m in ["hlt"] + ["cli"] * run + ["sti"]:
+                    insts.append(L.SInst(addr, m, [], None, None, 1))
+                    addr += 1
+                continue
+            src = body[k % len(body)]
+            k += 1
+            insts.append(L.SInst(addr, src.mnem, list(src.ops), None, None, src.nbytes))
+            addr += src.nbytes
+        lp = ws.write("longv.s", L.render(insts, rng, labels=False))
+        kind = rng.choice(["times", "times", "not-and", "times-exact-max"])
+        if kind == "times":
+            pat = ["hlt", {"cli": {"times": {"min": 1, "max": 40}}}]
+            want_records = 1 + run
+        elif kind == "times-exact-max":
+            pat = ["hlt", {"cli": {"times": {"min": 1, "max": run}}}, "sti"]
+            want_records = 2 + run
+        else:
+            # after hlt: `before` cli; then a $not over the three-instruction group cli,cli,sti which does NOT match at that place
+            # unless exactly two cli are left - the group's tail lies beyond the boundary
+            pat = ["hlt"] + ["cli"] * (before - 1) + [{"$not": [{"$and": ["cli"] * (after + 1) + ["sti"]}]}]
+            want_records = None                                      # cli^(after+1) sti DOES match there: the rule must not be found
+        rp = ws.write("longv.yaml", real.dump_rule({"config": {"mnemonics-full-match": True}, "pattern": pat}))
+        ra = real.match(rp, lp, ret="list", search="all", only_addr=False)
+        rf = real.match(rp, lp, ret="list", search="first", only_addr=False)
+        rb = real.match(rp, lp, ret="bool", search="first")
+        rfa = real.match(rp, lp, ret="list", search="first", only_addr=True)
+        ctx.ran(4)
+        ctx.event("long_variable_length_cases")
+        ctx.case(("longv", B, before, after, kind), True, stratum=f"long listing, variable-length rule at index {B}")
+        case = {"long_variable": True, "B": B, "before": before, "after": after, "kind": kind, "size": size}
+        if any(r[0] != "ok" for r in (ra, rf, rb, rfa)):
+            ctx.disagreement(case, f"a mode raised on a {size}-instruction listing: {[r[:2] for r in (ra, rf, rb, rfa) if r[0] != 'ok'][:2]}")
+            continue
+        if want_records is None:
+            if ra[1] or rf[1] or rb[1] or rfa[1]:
+                ctx.disagreement(case, f"{kind} rule around instruction index {B} of {size}: the $not argument matches there (its tail lies beyond the index), "
+                                       f"yet all={str(ra[1])[:80]} first={str(rf[1])[:80]} bool={rb[1]} first-addr={rfa[1]}")
+            continue
+        ok = (len(ra[1]) == 1 and ra[1][0].count("|") == want_records and ra[1][0].startswith(hit_addr + "::") and list(rf[1]) == list(ra[1])
+              and rb[1] is True and list(rfa[1]) == [hit_addr])
+        if not ok:
+            ctx.disagreement(case, f"{kind} rule whose only occurrence ({want_records} instructions from {hit_addr}) straddles instruction index {B} of {size}: "
+                                   f"all-matches {[(h[:20], h.count('|')) for h in ra[1][:3]]}, first-match {[(h[:20], h.count('|')) for h in rf[1][:3]]}, bool {rb[1]}, first address {rfa[1]}")
+
+
+def replay_long_variable(ctx, case):
+    # regenerated from the recorded parameters (the filler instructions do not matter)
+    class C:
+        pass
+    import random
+    ws = real.Workspace()
+    saved = (ctx.shard, ctx.nshards)
+    for seed in range(6):
+        ctx.rng = random.Random(seed)
+        idx = BOUNDS.index(case["B"])
+        ctx.shard, ctx.nshards = idx, len(BOUNDS)
+        long_variable_stratum(ctx, ws, 1)
+    ctx.shard, ctx.nshards = saved
+
+
 def run_shard(ctx):
     d = drive.Driver(ctx, feat, flags="random", styles=("runs", "runs", "tiny", "mixed", "multisec"), judge_model=False, extra=monitor)
     d.loop(2500, 250000)
     long_listing_stratum(ctx, d.ws, ctx.share(48, 800))
+    long_variable_stratum(ctx, d.ws, ctx.share(32, 600))
+    gap_and_range_stratum(ctx, d.ws, ctx.share(160, 8000))
 
 
 def replay(ctx, case):
@@ -171,6 +328,10 @@ def replay(ctx, case):
     if case.get("long_listing"):
         long_listing_stratum(ctx, ws, 8)
         return
+    if case.get("long_variable"):
+        return replay_long_variable(ctx, case)
+    if case.get("gap_listing"):
+        return replay_gap(ctx, case)
     prep = dsl.prep_from_case(ws, case)
     if not prep.verify(ws):
         ctx.inconc("parser disagreement: " + prep.why)
